@@ -1259,6 +1259,32 @@ func c19LenSSA(r *Run) {
 				v = p.resolve(v)
 				switch x := v.(type) {
 				case *ssa.BinOp:
+					// an ordering of the kind against a constant (the bounds guard in front of a table indexed by kind)
+					if x.Op == token.LSS || x.Op == token.LEQ || x.Op == token.GTR || x.Op == token.GEQ {
+						kindOf := func(v ssa.Value) (int64, bool) {
+							v = p.resolve(v)
+							if cv, isConv := v.(*ssa.Convert); isConv {
+								v = p.resolve(cv.X)
+							}
+							if recv, _, isKind := reflectValueCall(v, "Kind"); isKind {
+								if kk := lenKindOf(p, recv, param, c); kk >= 0 {
+									return int64(kk), true
+								}
+								return 0, false
+							}
+							if cc, isC := p.constOf(v); isC && cc.Kind() == constant.Int {
+								n, exact := constant.Int64Val(cc)
+								return n, exact
+							}
+							return 0, false
+						}
+						l, ok1 := kindOf(x.X)
+						rr, ok2 := kindOf(x.Y)
+						if !ok1 || !ok2 {
+							return false, false
+						}
+						return constant.Compare(constant.MakeInt64(l), x.Op, constant.MakeInt64(rr)), true
+					}
 					if x.Op != token.EQL && x.Op != token.NEQ {
 						return false, false
 					}
@@ -1320,6 +1346,42 @@ func c19LenSSA(r *Run) {
 						return false, false
 					}
 					return false, true
+				case *ssa.UnOp:
+					// table[Kind(v)] for a constant array table [N]bool indexed by kind
+					if x.Op != token.MUL {
+						return false, false
+					}
+					ia, isIA := x.X.(*ssa.IndexAddr)
+					if !isIA {
+						return false, false
+					}
+					g, isG := ia.X.(*ssa.Global)
+					if !isG || g.Pkg == nil {
+						return false, false
+					}
+					t := constTablesOf(g.Pkg)[g]
+					if t == nil || !t.isArray || t.isSlice || !isBasicKind(t.valType, types.Bool) {
+						return false, false
+					}
+					idx := p.resolve(ia.Index)
+					if cv, isConv := idx.(*ssa.Convert); isConv {
+						idx = p.resolve(cv.X)
+					}
+					recv, _, isKind := reflectValueCall(idx, "Kind")
+					if !isKind {
+						return false, false
+					}
+					kk := lenKindOf(p, recv, param, c)
+					if kk < 0 {
+						return false, false
+					}
+					if tv, found := t.lookup(constant.MakeInt64(int64(kk))); found {
+						if cv, isC := tv.(*ssa.Const); isC && cv.Value != nil && cv.Value.Kind() == constant.Bool {
+							return constant.BoolVal(cv.Value), true
+						}
+						return false, false
+					}
+					return false, true // not listed: the zero value
 				case *ssa.Call:
 					// slices.Contains(table, Kind(v)) for a constant []reflect.Kind
 					if pkg, name := staticCalleeName(x); pkg == "slices" && name == "Contains" && len(x.Call.Args) == 2 {
